@@ -54,7 +54,7 @@ Definition C07_jumps_stmt : Prop :=
 (* definitions and calls (the fragment of C01_calls) *)
 Definition C07_calls_stmt : Prop :=
   forall root r rs fuel rviews steps trace,
-    canonical4 root = true -> lexable_names root = true ->
+    canonical4 root = true -> headers_ok root = true -> lexable_names root = true ->
     gen true [] (Some root) = Ok r -> gr_ok r = true ->
     abstract_source (Some root) = Some rs ->
     run_ref_chk fuel rs = OStop rviews steps trace ->
